@@ -158,7 +158,7 @@ fn check_cfg(ctx: &Ctx, cfg: &Cfg, dp: usize, stretch_len: usize) -> JobOut {
             // flat from the very first input at extreme magnitudes (with an active prefix of ordinary size the
             // squares of the jump overflow f64, which is not a flat-window matter)
             let extreme: Vec<f64> = if pre.is_empty() { vec![1e200, 1e-200, 1e300] } else { vec![] };
-            for (&level, via, cross) in levels.iter().chain(extreme.iter()).flat_map(|l| [(l, Via::Plain, false), (l, Via::Serde, false), (l, Via::Clone, false), (l, Via::Plain, true)]) {
+            for (&level, via, cross) in levels.iter().chain(extreme.iter()).flat_map(|l| [(l, Via::Plain, false), (l, Via::Serde, false), (l, Via::Clone, false), (l, Via::CloneFromUsed, false), (l, Via::CloneFromBigger, false), (l, Via::Plain, true)]) {
                 // via: the instance is serialized + restored / replaced by its clone between prefix and
                 // stretch (short prefixes only)
                 if via != Via::Plain && pre.len() > 1 {
@@ -191,14 +191,7 @@ fn check_cfg(ctx: &Ctx, cfg: &Cfg, dp: usize, stretch_len: usize) -> JobOut {
                     for op in &ops {
                         s.apply(op);
                     }
-                    match via {
-                        Via::Serde => {
-                            let bytes = s.ser().expect("harness: serialize");
-                            s = s.de(&bytes).expect("harness: deserialize");
-                        }
-                        Via::Clone => s = s.dup(),
-                        Via::Plain => {}
-                    }
+                    s = apply_via(cfg, s, via);
                     let mut res: Vec<Out> = Vec::with_capacity(stretch_len);
                     let mut sops: Vec<Op> = Vec::with_capacity(stretch_len);
                     for j in 0..stretch_len {
@@ -236,7 +229,7 @@ fn check_cfg(ctx: &Ctx, cfg: &Cfg, dp: usize, stretch_len: usize) -> JobOut {
                             Violation::new(PROP, cfg, &ops, &class)
                                 .obs(out2s(&res[j]))
                                 .exp(exp)
-                                .det(format!("{:?} stretch at level {} : step {} of the stretch after a {}-op active prefix{} (window degenerate)", st, level, j + 1, plen, match via { Via::Serde => " and a bincode round trip", Via::Clone => " and a clone() that replaced the instance", Via::Plain => "" })),
+                                .det(format!("{:?} stretch at level {} : step {} of the stretch after a {}-op active prefix{} (window degenerate)", st, level, j + 1, plen, if via == Via::Plain { String::new() } else { format!("; then the instance was {}", via.text()) })),
                         );
                         return out;
                     }
